@@ -1,11 +1,426 @@
-//! (stub) binding for this area — see DESIGN.md
-use crate::util::Args;
+//! Binding of spec/TuplePack.tla to ragc_core::tuple_packing / segment_compression / zstd_pool (C12).
+//!
+//! `replay-tuplepack`: every string of the bounded model (one JSON line each: the string, the
+//!   model's packed bytes, the model's marker choice) is driven through the real API following the
+//!   actions of the specification (SetInput, StoreRef, StoreDelta(level), Load) and the projected
+//!   real state (packed bytes, marker, payload after an independent un-ZSTD, decompressed bytes)
+//!   is compared with the model's after every step.
+//! `trace-tuplepack`: random byte strings (up to 100 kB, repetitiveness on both sides of the 1/2
+//!   threshold, every symbol range, every compression level) are compressed on several threads
+//!   (main thread with a long-lived ZSTD context + fresh threads) and every call is logged as one
+//!   event; TLC validates the log against Trace_TuplePack.tla.  No verdict is made here.
+use crate::util::{self, Args};
 use anyhow::Result;
+use ragc_core::segment_compression::{
+    compress_reference_segment, compress_segment, compress_segment_configured, decompress_segment,
+    decompress_segment_with_marker,
+};
+use ragc_core::tuple_packing::{bytes_to_tuples, tuples_to_bytes};
+use rand::rngs::StdRng;
+use rand::seq::SliceRandom;
+use rand::Rng;
+use serde_json::{json, Value};
+use std::io::{BufRead, Write};
 
-/// Returns None when `cmd` is not one of this module's sub-commands.
 pub fn dispatch(cmd: &str, a: &Args) -> Option<Result<()>> {
-    let _ = a;
     match cmd {
+        "replay-tuplepack" => Some(replay(a)),
+        "trace-tuplepack" => Some(trace(a)),
         _ => None,
     }
+}
+
+fn bytes(v: &Value) -> Vec<u8> {
+    v.as_array().map(|a| a.iter().map(|x| x.as_u64().unwrap() as u8).collect()).unwrap_or_default()
+}
+
+/// The trusted ZSTD box, used independently of ragc (the `zstd` crate directly).
+fn unz(p: &[u8]) -> std::result::Result<Vec<u8>, String> {
+    zstd::decode_all(p).map_err(|e| format!("independent un-ZSTD failed: {e}"))
+}
+fn z(d: &[u8], level: i32) -> Vec<u8> {
+    zstd::bulk::compress(d, level).expect("zstd encode")
+}
+
+fn levels_arg(a: &Args, default: &[i32]) -> Vec<i32> {
+    match a.opt("levels") {
+        Some(s) => s.split(',').filter_map(|x| x.trim().parse().ok()).collect(),
+        None => default.to_vec(),
+    }
+}
+
+// -------------------------------------------------------------------------------------------------
+// REPLAY
+// -------------------------------------------------------------------------------------------------
+
+/// One behaviour = one string of the model taken through every Store/Load of the model.
+/// Returns the first divergence (step name, fields, model value, real value).
+fn replay_one(b: &[u8], packed: &[u8], levels: &[i32], stats: &mut [u64; 4]) -> (u64, Option<Value>) {
+    let mut steps = 0u64;
+    macro_rules! fail {
+        ($step:expr, $field:expr, $model:expr, $real:expr) => {
+            return (steps, Some(json!({"step": $step, "fields": [$field], "model": $model, "real": $real})))
+        };
+    }
+    // --- tuple packing alone: Pack / Unpack
+    steps += 1;
+    let rp = bytes_to_tuples(b);
+    if rp != packed {
+        // triage aid: does the real pair still round-trip (format divergence) or not (lossy)?
+        let rt = util::catch(std::panic::AssertUnwindSafe(|| tuples_to_bytes(&rp))).map(|u| u == b).unwrap_or(false);
+        return (steps, Some(json!({"step": "Pack", "fields": ["packed"], "model": packed, "real": rp, "real_roundtrip_ok": rt})));
+    }
+    steps += 1;
+    let ru = tuples_to_bytes(packed);
+    if ru != b {
+        fail!("Unpack", "unpacked", b, ru);
+    }
+    // --- StoreRef(m) with the marker the code picks, then Load
+    steps += 1;
+    let (payload, marker) = match compress_reference_segment(&b.to_vec()) {
+        Ok(x) => x,
+        Err(e) => fail!("StoreRef", "result", "Ok", format!("Err({e})")),
+    };
+    if marker > 1 {
+        fail!("StoreRef", "marker", "0 or 1", marker);
+    }
+    stats[marker as usize] += 1;
+    let want: &[u8] = if marker == 1 { packed } else { b };
+    match unz(&payload) {
+        Ok(u) if u == want => {}
+        Ok(u) => fail!("StoreRef", "payload", want, json!({"marker": marker, "unz": u})),
+        Err(e) => fail!("StoreRef", "payload", want, e),
+    }
+    steps += 1;
+    match decompress_segment_with_marker(&payload, marker) {
+        Ok(d) if d == b => {}
+        Ok(d) => fail!("Load(ref)", "out", b, json!({"marker": marker, "out": d})),
+        Err(e) => fail!("Load(ref)", "out", b, format!("Err({e})")),
+    }
+    // --- Load of both model blobs EncodeRef(inp, 0) and EncodeRef(inp, 1) (payload made by the
+    //     trusted box, so that the marker-1 decoder path is taken for EVERY string)
+    for m in [0u8, 1u8] {
+        steps += 1;
+        let p = if m == 1 { z(packed, 13) } else { z(b, 19) };
+        match decompress_segment_with_marker(&p, m) {
+            Ok(d) if d == b => {}
+            Ok(d) => fail!(format!("Load(model blob, marker {m})"), "out", b, d),
+            Err(e) => fail!(format!("Load(model blob, marker {m})"), "out", b, format!("Err({e})")),
+        }
+    }
+    // --- StoreDelta(level), Load
+    for (i, &lv) in levels.iter().enumerate() {
+        steps += 1;
+        let r = if i == 0 && lv == 17 { compress_segment(&b.to_vec()) } else { compress_segment_configured(&b.to_vec(), lv) };
+        let p = match r {
+            Ok(p) => p,
+            Err(e) => fail!(format!("StoreDelta({lv})"), "result", "Ok", format!("Err({e})")),
+        };
+        match unz(&p) {
+            Ok(u) if u == b => {}
+            Ok(u) => fail!(format!("StoreDelta({lv})"), "payload", b, u),
+            Err(e) => fail!(format!("StoreDelta({lv})"), "payload", b, e),
+        }
+        steps += 1;
+        match decompress_segment_with_marker(&p, 0) {
+            Ok(d) if d == b => {}
+            Ok(d) => fail!(format!("Load(delta {lv})"), "out", b, d),
+            Err(e) => fail!(format!("Load(delta {lv})"), "out", b, format!("Err({e})")),
+        }
+        match decompress_segment(&p) {
+            Ok(d) if d == b => {}
+            Ok(d) => fail!(format!("Load(delta {lv}, decompress_segment)"), "out", b, d),
+            Err(e) => fail!(format!("Load(delta {lv}, decompress_segment)"), "out", b, format!("Err({e})")),
+        }
+    }
+    (steps, None)
+}
+
+pub fn replay(a: &Args) -> Result<()> {
+    util::install_panic_hook();
+    let levels = levels_arg(a, &[17, 1, 19]);
+    let f = std::fs::File::open(a.get("in")?)?;
+    let mut n = 0u64;
+    let mut steps = 0u64;
+    let mut fails: Vec<Value> = vec![];
+    // [marker 0 chosen, marker 1 chosen, choice agrees with the model's Choose, disagrees]
+    let mut stats = [0u64; 4];
+    for line in std::io::BufReader::new(f).lines() {
+        let line = line?;
+        if line.trim().is_empty() {
+            continue;
+        }
+        let beh: Value = serde_json::from_str(&line)?;
+        let b = bytes(&beh["b"]);
+        let packed = bytes(&beh["packed"]);
+        let choose = beh["choose"].as_u64().unwrap_or(9);
+        n += 1;
+        let mut st = [0u64; 4];
+        let lv = levels.clone();
+        let r = util::catch(std::panic::AssertUnwindSafe(|| replay_one(&b, &packed, &lv, &mut st)));
+        match r {
+            Ok((s, None)) => {
+                steps += s;
+                stats[0] += st[0];
+                stats[1] += st[1];
+                // informational only: the code's marker against the model's repetitiveness rule
+                let real_marker = if st[1] > 0 { 1 } else { 0 };
+                if real_marker == choose { stats[2] += 1 } else { stats[3] += 1 }
+            }
+            Ok((s, Some(mut v))) => {
+                steps += s;
+                v["behaviour"] = beh.clone();
+                fails.push(v);
+            }
+            Err(p) => fails.push(json!({"step": "panic", "fields": ["panic"], "panic": p, "behaviour": beh})),
+        }
+        if fails.len() >= 20 {
+            break;
+        }
+    }
+    println!(
+        "{}",
+        json!({"behaviours": n, "steps": steps, "fails": fails, "marker0": stats[0], "marker1": stats[1],
+               "choice_agree": stats[2], "choice_differ": stats[3], "levels": levels})
+    );
+    Ok(())
+}
+
+// -------------------------------------------------------------------------------------------------
+// TRACE
+// -------------------------------------------------------------------------------------------------
+
+const ALPHABETS: &[&[u8]] = &[
+    &[0, 1, 2, 3],
+    &[0, 1, 2, 3, 4],
+    &[0, 1, 2, 3, 4, 5],
+    &[0, 1, 2, 3, 4, 5, 6, 7, 8, 9, 10, 11, 12, 13, 14, 15],
+    &[0, 255],
+    &[0, 1, 2, 3, 16],
+    &[4, 5],
+];
+
+fn pick(rng: &mut StdRng, alpha: &[u8]) -> u8 {
+    if alpha.is_empty() { rng.gen() } else { *alpha.choose(rng).unwrap() }
+}
+
+fn gen_len(rng: &mut StdRng, maxlen: usize) -> usize {
+    const EDGE: &[usize] = &[0, 1, 2, 3, 4, 5, 6, 7, 8, 9, 11, 12, 13, 23, 24, 25, 31, 32, 33, 34, 35, 36, 37, 63, 64, 65];
+    match rng.gen_range(0..10) {
+        0..=2 => *EDGE.choose(rng).unwrap(),
+        3..=6 => rng.gen_range(0..=300.min(maxlen)),
+        _ => rng.gen_range(0..=maxlen),
+    }
+}
+
+/// One input string; `class` selects the shape.  Everything is drawn from `rng`.
+fn gen_input(rng: &mut StdRng, len: usize) -> (Vec<u8>, String) {
+    let class = rng.gen_range(0..6);
+    let ai = rng.gen_range(0..=ALPHABETS.len());
+    let alpha: &[u8] = if ai == ALPHABETS.len() { &[] } else { ALPHABETS[ai] };
+    match class {
+        // uniform
+        0 => ((0..len).map(|_| pick(rng, alpha)).collect(), format!("uniform/a{ai}")),
+        // periodic with period p and per-position noise q: match fraction at offset p is about (1-q)^2
+        1 | 2 => {
+            let p = *[2usize, 3, 4, 5, 7, 12, 16, 31, 32, 40].choose(rng).unwrap();
+            let q = *[0.0f64, 0.05, 0.15, 0.25, 0.28, 0.29, 0.30, 0.31, 0.35, 0.45, 0.6].choose(rng).unwrap();
+            let block: Vec<u8> = (0..p).map(|_| pick(rng, alpha)).collect();
+            let d = (0..len).map(|i| if rng.gen::<f64>() < q { pick(rng, alpha) } else { block[i % p] }).collect();
+            (d, format!("periodic/p{p}/q{q}/a{ai}"))
+        }
+        // exactly every second compared position differs at offset p: 2*cnt is about cur_size
+        3 => {
+            let p = rng.gen_range(4..32usize);
+            let mut d: Vec<u8> = Vec::with_capacity(len);
+            let skew = rng.gen_range(0..3usize);
+            for j in 0..len {
+                let s = if j < p { rng.gen_range(0..4u8) } else if (j + (j / 7) * skew) % 2 == 0 { d[j - p] } else { (d[j - p] + 1 + rng.gen_range(0..3u8)) % 4 };
+                d.push(s);
+            }
+            (d, format!("half/p{p}/s{skew}"))
+        }
+        // ACGT with one boundary maximum somewhere (3/4, 5/6, 15/16, 255)
+        4 => {
+            let m = *[3u8, 4, 5, 6, 15, 16, 255].choose(rng).unwrap();
+            let mut d: Vec<u8> = (0..len).map(|_| rng.gen_range(0..4u8)).collect();
+            if len > 0 {
+                let at = match rng.gen_range(0..3) { 0 => 0, 1 => len - 1, _ => rng.gen_range(0..len) };
+                d[at] = m;
+            }
+            (d, format!("boundary/m{m}"))
+        }
+        // mostly non-ACGT (cur_size small or zero in the repetitiveness test)
+        _ => {
+            let hi = *[4u8, 5, 15, 30].choose(rng).unwrap();
+            let rate = *[0.0f64, 0.01, 0.2].choose(rng).unwrap();
+            let d = (0..len).map(|_| if rng.gen::<f64>() < rate { rng.gen_range(0..4u8) } else { hi }).collect();
+            (d, format!("mostlyN/h{hi}/r{rate}"))
+        }
+    }
+}
+
+#[derive(Clone, Copy)]
+enum Op {
+    Ref,
+    Delta(i32),
+    Pack,
+}
+
+/// Executes a script of (input index, op) on the CURRENT thread and returns the events.
+/// `age` = number of compressions this thread's ZSTD context has done before.
+fn run_script(t: u64, mut age: u64, inputs: &[Vec<u8>], script: &[(usize, Op)], announce: &mut Vec<bool>) -> (Vec<Value>, u64) {
+    let mut evs: Vec<Value> = vec![];
+    let mut cur: Option<usize> = None;
+    for &(did, op) in script {
+        if cur != Some(did) {
+            let mut e = json!({"ev": "select", "did": did});
+            if !announce[did] {
+                e["data"] = json!(inputs[did]);
+                announce[did] = true;
+            }
+            evs.push(e);
+            cur = Some(did);
+        }
+        let data = inputs[did].clone();
+        let r = util::catch(std::panic::AssertUnwindSafe(|| -> std::result::Result<Vec<Value>, String> {
+            let mut out = vec![];
+            match op {
+                Op::Pack => {
+                    let p = bytes_to_tuples(&data);
+                    let u = tuples_to_bytes(&p);
+                    out.push(json!({"ev": "pack", "packed": p, "unpacked": u}));
+                }
+                Op::Ref | Op::Delta(_) => {
+                    let (payload, marker, mut ev) = match op {
+                        Op::Ref => {
+                            let (p, m) = compress_reference_segment(&data).map_err(|e| format!("compress_reference_segment: {e}"))?;
+                            (p, m, json!({"ev": "ref", "marker": m}))
+                        }
+                        Op::Delta(lv) => {
+                            let p = compress_segment_configured(&data, lv).map_err(|e| format!("compress_segment_configured: {e}"))?;
+                            (p, 0u8, json!({"ev": "delta", "level": lv}))
+                        }
+                        Op::Pack => unreachable!(),
+                    };
+                    ev["unz"] = json!(unz(&payload)?);
+                    ev["zlen"] = json!(payload.len());
+                    out.push(ev);
+                    out.push(json!({"ev": "ctx", "t": t, "n": age, "zh": util::sha256_hex(&payload)}));
+                    let dec = decompress_segment_with_marker(&payload, marker).map_err(|e| format!("decompress_segment_with_marker: {e}"))?;
+                    let mut le = json!({"ev": "load", "dec": dec});
+                    if marker == 0 {
+                        le["dec2"] = json!(decompress_segment(&payload).map_err(|e| format!("decompress_segment: {e}"))?);
+                    }
+                    out.push(le);
+                }
+            }
+            Ok(out)
+        }));
+        if !matches!(op, Op::Pack) {
+            age += 1;
+        }
+        match r {
+            Ok(Ok(v)) => evs.extend(v),
+            Ok(Err(e)) => {
+                evs.push(json!({"ev": "error", "msg": e}));
+                break;
+            }
+            Err(p) => {
+                evs.push(json!({"ev": "panic", "msg": p}));
+                break;
+            }
+        }
+    }
+    (evs, age)
+}
+
+pub fn trace(a: &Args) -> Result<()> {
+    util::install_panic_hook();
+    let seed: u64 = a.num("seed", 1u64);
+    let ncases: usize = a.num("cases", 20);
+    let first: usize = a.num("first", 0);
+    let maxlen: usize = a.num("maxlen", 2048);
+    let nbig: usize = a.num("big", 0); // the first `nbig` cases get one input of up to `biglen` bytes
+    let biglen: usize = a.num("biglen", 100_000);
+    let all_levels: Vec<i32> = levels_arg(a, &[1, 3, 9, 13, 17, 19, 22]);
+    let mut out = std::io::BufWriter::new(std::fs::File::create(a.get("out")?)?);
+    let mut main_age = 0u64;
+    for case in first..first + ncases {
+        let mut rng = util::rng(seed.wrapping_mul(0x9E37_79B9_7F4A_7C15) ^ (case as u64) << 20 ^ 0xC12);
+        let big = case - first < nbig;
+        // inputs
+        let nin = if big { 2 } else { rng.gen_range(2..=5) };
+        let mut inputs: Vec<Vec<u8>> = vec![];
+        let mut shapes: Vec<String> = vec![];
+        for i in 0..nin {
+            let len = if big && i == 0 {
+                *[biglen, biglen - 1, biglen - 2, biglen - 3, biglen - 6, biglen * 2 / 3 + 1].choose(&mut rng).unwrap()
+            } else {
+                gen_len(&mut rng, maxlen)
+            };
+            let (d, s) = gen_input(&mut rng, len);
+            inputs.push(d);
+            shapes.push(s);
+        }
+        // one op list, executed by every thread in its own order
+        let mut ops: Vec<(usize, Op)> = vec![];
+        for did in 0..nin {
+            ops.push((did, Op::Ref));
+            ops.push((did, Op::Pack));
+            let nl = if big { 1 } else { 2 };
+            for lv in all_levels.choose_multiple(&mut rng, nl) {
+                ops.push((did, Op::Delta(*lv)));
+            }
+        }
+        let nthreads = if big { 2 } else { rng.gen_range(2..=3) };
+        let mut scripts: Vec<Vec<(usize, Op)>> = vec![];
+        for _ in 0..nthreads {
+            let mut s = ops.clone();
+            s.shuffle(&mut rng);
+            scripts.push(s);
+        }
+        writeln!(out, "{}", json!({"ev": "start", "case": case, "shapes": shapes, "lens": inputs.iter().map(|d| d.len()).collect::<Vec<_>>()}))?;
+        // thread 0 = this (long-lived) thread; the others are fresh threads running concurrently
+        let mut announce = vec![false; nin];
+        let mut all: Vec<Vec<Value>> = vec![];
+        let (ev0, age) = run_script(0, main_age, &inputs, &scripts[0], &mut announce);
+        let hdr0 = json!({"ev": "thread", "t": 0, "n0": main_age});
+        main_age = age;
+        let mut first_evs = vec![hdr0];
+        first_evs.extend(ev0);
+        all.push(first_evs);
+        let inputs_ref = &inputs;
+        let rest: Vec<Vec<Value>> = std::thread::scope(|sc| {
+            let hs: Vec<_> = scripts[1..]
+                .iter()
+                .enumerate()
+                .map(|(i, s)| {
+                    sc.spawn(move || {
+                        // inputs are announced by thread 0's log already or on first use here
+                        let mut ann = vec![true; inputs_ref.len()];
+                        let (ev, _) = run_script((i + 1) as u64, 0, inputs_ref, s, &mut ann);
+                        let mut v = vec![json!({"ev": "thread", "t": i + 1, "n0": 0})];
+                        v.extend(ev);
+                        v
+                    })
+                })
+                .collect();
+            hs.into_iter().map(|h| h.join().unwrap_or_else(|_| vec![json!({"ev": "panic", "msg": "thread died"})])).collect()
+        });
+        all.extend(rest);
+        // thread 0 may have stopped early (error/panic) before announcing every input
+        for (did, done) in announce.iter().enumerate() {
+            if !*done {
+                all[0].push(json!({"ev": "select", "did": did, "data": inputs[did]}));
+            }
+        }
+        for evs in all {
+            for e in evs {
+                writeln!(out, "{}", e)?;
+            }
+        }
+    }
+    out.flush()?;
+    Ok(())
 }
